@@ -878,3 +878,13 @@ Section ScriptProofs.
     destruct (Hj O s eq_refl) as [pre [post [_ [_ [_ [Ha _]]]]]]. congruence.
   Qed.
 End ScriptProofs.
+
+(* the generated defaults are u32 values, so the theorems apply to the shipped policy *)
+Lemma default_caps_wf : caps_wf default_caps.
+Proof.
+  unfold caps_wf, caps_fields. cbn.
+  repeat (apply Forall_cons; [unfold cap_type_max; lia|]). apply Forall_nil.
+Qed.
+
+Lemma command_new_wf p : command_wf (command_new p).
+Proof. intros t Ht. discriminate. Qed.
